@@ -139,6 +139,7 @@ func checkC07(rc *RunCtx) *Report {
 			}
 			out.Numbers["states"] += int64(x.States)
 			out.Numbers["transitions"] += int64(x.Transitions)
+			out.Numbers["split_steps"] += int64(x.Splits)
 			out.Numbers["idle_states"] += int64(x.IdleStates)
 			out.Numbers["candidates"] += int64(cands.total)
 			out.Numbers["unconfirmed_candidates"] += int64(cands.unconfirmed)
@@ -243,6 +244,7 @@ func checkC07(rc *RunCtx) *Report {
 			}
 			out.Numbers["states"] += int64(x.States)
 			out.Numbers["transitions"] += int64(x.Transitions)
+			out.Numbers["split_steps"] += int64(x.Splits)
 			out.Numbers["crash_transitions"] += int64(crashTrans)
 			out.Numbers["terminal_states"] += int64(len(terms))
 			out.Numbers["crash_free_outcomes"] += int64(len(noCrash))
